@@ -73,6 +73,8 @@ impl Write for WritableFile {
         self.content.flush()?;
         let mut content = self.content.get_ref().clone();
         swap(&mut content, self.content.get_mut());
+        #[cfg(feature = "verif-hooks")]
+        crate::verif_hooks::yield_point("memory::flush");
         let mut handle = self.fs.write().unwrap();
         let previous_file = handle.files.get(&self.destination);
 
@@ -140,6 +142,8 @@ impl Seek for ReadableFile {
 impl FileSystem for MemoryFS {
     fn read_dir(&self, path: &str) -> VfsResult<Box<dyn Iterator<Item = String> + Send>> {
         let prefix = format!("{}/", path);
+        #[cfg(feature = "verif-hooks")]
+        crate::verif_hooks::yield_point("memory::read_dir");
         let handle = self.handle.read().unwrap();
         let mut found_directory = false;
         #[allow(clippy::needless_collect)] // need collect to satisfy lifetime requirements
@@ -167,6 +171,8 @@ impl FileSystem for MemoryFS {
 
     fn create_dir(&self, path: &str) -> VfsResult<()> {
         self.ensure_has_parent(path)?;
+        #[cfg(feature = "verif-hooks")]
+        crate::verif_hooks::yield_point("memory::create_dir");
         let map = &mut self.handle.write().unwrap().files;
         let entry = map.entry(path.to_string());
         match entry {
@@ -195,6 +201,8 @@ impl FileSystem for MemoryFS {
     fn open_file(&self, path: &str) -> VfsResult<Box<dyn SeekAndRead + Send>> {
         self.set_access_time(path, SystemTime::now())?;
 
+        #[cfg(feature = "verif-hooks")]
+        crate::verif_hooks::yield_point("memory::open_file");
         let handle = self.handle.read().unwrap();
         let file = handle.files.get(path).ok_or(VfsErrorKind::FileNotFound)?;
         ensure_file(file)?;
@@ -207,6 +215,8 @@ impl FileSystem for MemoryFS {
     fn create_file(&self, path: &str) -> VfsResult<Box<dyn SeekAndWrite + Send>> {
         self.ensure_has_parent(path)?;
         let content = Arc::new(Vec::<u8>::new());
+        #[cfg(feature = "verif-hooks")]
+        crate::verif_hooks::yield_point("memory::create_file");
         self.handle.write().unwrap().files.insert(
             path.to_string(),
             MemoryFile {
@@ -226,6 +236,8 @@ impl FileSystem for MemoryFS {
     }
 
     fn append_file(&self, path: &str) -> VfsResult<Box<dyn SeekAndWrite + Send>> {
+        #[cfg(feature = "verif-hooks")]
+        crate::verif_hooks::yield_point("memory::append_file");
         let handle = self.handle.write().unwrap();
         let file = handle.files.get(path).ok_or(VfsErrorKind::FileNotFound)?;
         let mut content = Cursor::new(file.content.as_ref().clone());
@@ -239,6 +251,8 @@ impl FileSystem for MemoryFS {
     }
 
     fn metadata(&self, path: &str) -> VfsResult<VfsMetadata> {
+        #[cfg(feature = "verif-hooks")]
+        crate::verif_hooks::yield_point("memory::metadata");
         let guard = self.handle.read().unwrap();
         let files = &guard.files;
         let file = files.get(path).ok_or(VfsErrorKind::FileNotFound)?;
@@ -252,6 +266,8 @@ impl FileSystem for MemoryFS {
     }
 
     fn set_creation_time(&self, path: &str, time: SystemTime) -> VfsResult<()> {
+        #[cfg(feature = "verif-hooks")]
+        crate::verif_hooks::yield_point("memory::set_creation_time");
         let mut guard = self.handle.write().unwrap();
         let files = &mut guard.files;
         let file = files.get_mut(path).ok_or(VfsErrorKind::FileNotFound)?;
@@ -262,6 +278,8 @@ impl FileSystem for MemoryFS {
     }
 
     fn set_modification_time(&self, path: &str, time: SystemTime) -> VfsResult<()> {
+        #[cfg(feature = "verif-hooks")]
+        crate::verif_hooks::yield_point("memory::set_modification_time");
         let mut guard = self.handle.write().unwrap();
         let files = &mut guard.files;
         let file = files.get_mut(path).ok_or(VfsErrorKind::FileNotFound)?;
@@ -272,6 +290,8 @@ impl FileSystem for MemoryFS {
     }
 
     fn set_access_time(&self, path: &str, time: SystemTime) -> VfsResult<()> {
+        #[cfg(feature = "verif-hooks")]
+        crate::verif_hooks::yield_point("memory::set_access_time");
         let mut guard = self.handle.write().unwrap();
         let files = &mut guard.files;
         let file = files.get_mut(path).ok_or(VfsErrorKind::FileNotFound)?;
@@ -282,10 +302,14 @@ impl FileSystem for MemoryFS {
     }
 
     fn exists(&self, path: &str) -> VfsResult<bool> {
+        #[cfg(feature = "verif-hooks")]
+        crate::verif_hooks::yield_point("memory::exists");
         Ok(self.handle.read().unwrap().files.contains_key(path))
     }
 
     fn remove_file(&self, path: &str) -> VfsResult<()> {
+        #[cfg(feature = "verif-hooks")]
+        crate::verif_hooks::yield_point("memory::remove_file");
         let mut handle = self.handle.write().unwrap();
         handle
             .files
@@ -298,6 +322,8 @@ impl FileSystem for MemoryFS {
         if self.read_dir(path)?.next().is_some() {
             return Err(VfsErrorKind::Other("Directory to remove is not empty".into()).into());
         }
+        #[cfg(feature = "verif-hooks")]
+        crate::verif_hooks::yield_point("memory::remove_dir");
         let mut handle = self.handle.write().unwrap();
         handle
             .files
